@@ -176,6 +176,16 @@ reg("C19",
     "benign/hostile twin differential + recorder path-root scan + no_std client crate", "DESIGN.md §4 C19")
 
 
+reg("C14",
+    "Exploration by runtime monitoring: call chains of depth 1-6 through generated traits (fn, mod, leaf trait, static impl block; "
+    "sync and async driven on the stack) are run next to a twin chain of plain generic fns with identical allocating bodies; a "
+    "counting global allocator shows both perform the same number of heap allocations (measured twice) with equal results; the "
+    "recorder's generated tokens are scanned for dyn/Box/Pin/alloc; in the thorough tier valgrind memcheck's heap summary over the "
+    "same binaries is an independent counter.",
+    "Debug builds; allocation equality is about counts of twin paths, not absolute numbers.",
+    "allocation-count monitor (counting allocator, valgrind cross-check) + differential twin + recorder token scan", "DESIGN.md §4 C14")
+
+
 def manifest():
     hooks_commits = subprocess.run(["git", "-C", "/repo", "log", "--format=%H", "--grep=^verif hook"],
                                    stdout=subprocess.PIPE, text=True).stdout.split()
